@@ -33,7 +33,7 @@ RULE = ("seeded plans: (base grid class/shape/bounds/periodicity, admissible dec
 PROBES = ["sched/messages", "sched/delayed_messages", "sched/stalls", "sched/stall_after_send_before_recv",
           "sched/recv_blocked_on_undelivered", "sched/reordered_deliveries", "probes/two_chunks_on_periodic_axis",
           "probes/uneven_chunks", "probes/single_cell_chunk", "probes/script_solve", "probes/script_operator",
-          "probes/adaptive_allreduce", "probes/collection_state", "probes/vector_or_tensor_field", "probes/integral_allreduce",
+          "probes/adaptive_allreduce", "probes/collection_state", "faults/fired_stop_on_main_rank", "probes/vector_or_tensor_field", "probes/integral_allreduce",
           "probes/skipped_inadmissible"]
 COMPONENTS = {
     "real": ["pde.grids._mesh.GridMesh (split/combine/neighbours/flags/extract_boundary_conditions)", "pde.grids.boundaries.local._MPIBC",
@@ -184,6 +184,11 @@ def gen_plan(rng, tier, idx):
             eq = eqs[0]
         plan.update(eq=eq, bc=rng.choice(BCS[:9] if not eq.get("vector") else BCS_TENSOR), steps=rng.randint(1, 5), dt=1e-4,
                     adaptive=rng.random() < 0.25, tracker_every=rng.choice([1, 2, None]))
+        if plan["tracker_every"] and rng.random() < 0.35:
+            # fault: the tracker (which runs on the main rank only) requests a stop at its m-th call;
+            # the client ranks are somewhere inside their stepping loop and have to be released
+            plan["stop"] = {"call": rng.randint(0, 3), "kind": rng.choice(["StopIteration", "FinishedSimulation"]),
+                            "msg": rng.choice([None, "enough"])}
     return plan
 
 
@@ -274,8 +279,18 @@ def _solve(plan, state, gspec, mpi: bool):
     eq = _equation(plan, gspec)
     times = []
     trackers = []
+    stop = plan.get("stop")
+
+    def callback(s, t):
+        times.append(float(t))
+        if stop and len(times) - 1 == stop["call"]:
+            from pde.trackers.base import FinishedSimulation
+
+            exc = StopIteration if stop["kind"] == "StopIteration" else FinishedSimulation
+            raise exc(stop["msg"]) if stop["msg"] is not None else exc()
+
     if plan["tracker_every"]:
-        trackers.append(pde.CallbackTracker(lambda s, t: times.append(float(t)), interrupts=plan["tracker_every"] * plan["dt"]))
+        trackers.append(pde.CallbackTracker(callback, interrupts=plan["tracker_every"] * plan["dt"]))
     kw = {"adaptive": bool(plan["adaptive"])}
     if plan["adaptive"]:
         kw["tolerance"] = 1e-3
@@ -288,7 +303,8 @@ def _solve(plan, state, gspec, mpi: bool):
     if res is None:
         return None
     return {"data": np.array(res.data, copy=True), "times": times, "steps": int(info["solver"]["steps"]),
-            "t_final": float(info["controller"]["t_final"]), "backend": str(info["solver"].get("backend", {}).get("name", ""))}
+            "t_final": float(info["controller"]["t_final"]), "backend": str(info["solver"].get("backend", {}).get("name", "")),
+            "stop_reason": info["controller"].get("stop_reason"), "successful": info["controller"].get("successful")}
 
 
 # ======================================================================================
@@ -562,7 +578,14 @@ def execute(plan):
                 probe("vector_or_tensor_field")
             if "numba_mpi" not in r0["backend"]:
                 fail("C17/wrong-backend", f"explicit_mpi selected backend {r0['backend']!r}")
-            if r0["steps"] != ref["steps"] or not np.isclose(r0["t_final"], ref["t_final"], rtol=1e-12, atol=1e-15):
+            if plan.get("stop"):
+                stats["faults"]["configured_stop"] = 1
+                if len(ref["times"]) > plan["stop"]["call"]:
+                    stats["faults"]["fired_stop_on_main_rank"] = 1
+            if (r0["stop_reason"], r0["successful"]) != (ref["stop_reason"], ref["successful"]):
+                fail("C17/solve-stop-info", f"MPI run ended with {r0['stop_reason']!r} (successful={r0['successful']}), the serial run with "
+                     f"{ref['stop_reason']!r} (successful={ref['successful']}); stop fault {plan.get('stop')}")
+            elif r0["steps"] != ref["steps"] or not np.isclose(r0["t_final"], ref["t_final"], rtol=1e-12, atol=1e-15):
                 fail("C17/solve-accounting", f"MPI run: {r0['steps']} steps to t={r0['t_final']!r}; serial run: {ref['steps']} steps to t={ref['t_final']!r}")
             elif not np.allclose(r0["times"], ref["times"], rtol=1e-12, atol=1e-15) or len(r0["times"]) != len(ref["times"]):
                 fail("C17/solve-tracker-times", f"tracker called at {r0['times']} in the MPI run and at {ref['times']} in the serial run")
@@ -634,7 +657,9 @@ def simplify(plan):
             yield variant(lambda p: p.update(steps=1))
         if plan["adaptive"]:
             yield variant(lambda p: p.update(adaptive=False))
-        if plan["tracker_every"]:
+        if plan.get("stop"):
+            yield variant(lambda p: p.pop("stop"))
+        if plan["tracker_every"] and not plan.get("stop"):
             yield variant(lambda p: p.update(tracker_every=None))
         if plan["eq"]["cls"] != "DiffusionPDE":
             yield variant(lambda p: p.update(eq={"cls": "DiffusionPDE", "diffusivity": 1}))
